@@ -1,7 +1,9 @@
 #!/usr/bin/env python3
 """Prompt for a sub-agent that must demonstrate (or refute) a suspected genuine defect and propose a minimal fix."""
 import sys
+import os
 name, desc = sys.argv[1], sys.argv[2]
+if os.path.exists(desc): desc = open(desc).read()
 wt=f"/tmp/wt/{name}"
 print(f"""You are helping audit the Go repository polynetwork/poly (a cross-chain relay-chain node). You have your OWN scratch git worktree at {wt} (a checkout of the pinned commit). Work ONLY inside {wt}. Never touch /repo or /verif and do not read anything under /verif.
 
